@@ -53,6 +53,24 @@ Theorem C15_toseq_foreach_first_error : forall (t : se) (f : nat -> Z -> option 
 Proof. exact toseq_foreach_first_error. Qed.
 Print Assumptions C15_toseq_foreach_first_error.
 
+(* "stops at the first error": when the model's ForEach returns an error its iterator is the one the failing callback
+   was called on - it shows the last element visited and no Next() was asked of it ([prun_foreach_st] is
+   [prun_foreach] that also answers the iterator; the harness reads Key()/Value() of the real iterator at that
+   point and Check/C15.v compares) *)
+Theorem C15_pair_foreach_stops_at_error : forall (t : pe) (f : nat -> Z * Z -> option Z) n vs err j,
+  prun_foreach_st n f t = Some (vs, Some err, j) ->
+  prun_foreach n f t = Some (vs, Some err) /\
+  vs <> [] /\ kv j = last vs (0, 0) /\ f (length vs - 1)%nat (kv j) = Some err.
+Proof. exact pair_foreach_stops_at_error. Qed.
+Print Assumptions C15_pair_foreach_stops_at_error.
+
+Theorem C15_toseq_foreach_stops_at_error : forall (t : se) (f : nat -> Z -> option Z) n vs err j,
+  srun_foreach_st n f t = Some (vs, Some err, j) ->
+  srun_foreach n f t = Some (vs, Some err) /\
+  vs <> [] /\ svalue j = last vs 0 /\ f (length vs - 1)%nat (svalue j) = Some err.
+Proof. exact toseq_foreach_stops_at_error. Qed.
+Print Assumptions C15_toseq_foreach_stops_at_error.
+
 (* [gupto]: a prefix of the list in order; no error before the last element seen; the returned error is
    the one of the last call; without error the whole list was seen *)
 Theorem C15_gupto_spec : forall (E : Type) (f : nat -> E -> option Z) l k vs o, gupto f k l = (vs, o) ->
@@ -98,3 +116,11 @@ Example C15_example_foreach :
   prun_foreach 100 (fun k e => if Z.eqb (snd e) 2 then Some 55 else None)
                (PFromSeq FSPair (SSlice [1; 2; 3])) = Some ([(1001, 1); (1002, 2)], Some 55).
 Proof. vm_compute. reflexivity. Qed.
+
+Example C15_example_foreach_stops :
+  match prun_foreach_st 100 (fun k e => if Z.eqb (snd e) 2 then Some 55 else None)
+                        (PFilter (OnVal (PNe 7)) (PFromSeq FSPair (SSlice [1; 2; 3]))) with
+  | Some (vs, o, j) => vs = [(1001, 1); (1002, 2)] /\ o = Some 55 /\ kv j = (1002, 2)
+  | None => False
+  end.
+Proof. vm_compute. repeat split; reflexivity. Qed.
